@@ -5,6 +5,7 @@ import (
 	"bufio"
 	"fmt"
 	"io"
+	"os"
 	"os/exec"
 	"strconv"
 	"strings"
@@ -174,6 +175,13 @@ func (p *proc) emit(t *term.T) {
 func (p *proc) flush() error {
 	if p.buf.Len() == 0 {
 		return nil
+	}
+	if dir := os.Getenv("VCHECK_LOG_SOLVER"); dir != "" && p.cmd != nil && p.cmd.Process != nil {
+		f, err := os.OpenFile(fmt.Sprintf("%s/%s-%d.smt2", dir, p.kind, p.cmd.Process.Pid), os.O_APPEND|os.O_CREATE|os.O_WRONLY, 0o644)
+		if err == nil {
+			f.WriteString(p.buf.String())
+			f.Close()
+		}
 	}
 	_, err := io.WriteString(p.in, p.buf.String())
 	p.buf.Reset()
@@ -451,9 +459,13 @@ func (s *Solver) Model(vars []*term.T) (map[*term.T]uint64, bool) {
 func (s *Solver) CrossCheck(assumps []*term.T, want Result) (agree bool, detail string) {
 	lits := assumps[:0:0]
 	for _, a := range assumps {
-		if !a.IsConst() {
-			lits = append(lits, a)
+		if a.IsConst() {
+			if a.Val == 0 {
+				return true, "" // trivially unsat (constant false assumption): nothing to cross-check
+			}
+			continue
 		}
+		lits = append(lits, a)
 	}
 	// Only the second solver is asked (the first one produced the answer). Anything but a
 	// definite opposite answer counts as "not contradicted"; after an indefinite answer the
@@ -465,7 +477,26 @@ func (s *Solver) CrossCheck(assumps []*term.T, want Result) (agree bool, detail 
 		return true, ""
 	}
 	if r != want {
+		if dir := os.Getenv("VCHECK_DUMP_DISAGREE"); dir != "" {
+			s.dumpQuery(dir, lits, want, r)
+		}
 		return false, fmt.Sprintf("%s says %s, expected %s", p.kind, r, want)
 	}
 	return true, ""
+}
+
+// dumpQuery writes a self-contained SMT-LIB script for the query (debugging aid).
+func (s *Solver) dumpQuery(dir string, lits []*term.T, want, got Result) {
+	p := &proc{kind: "dump", emitted: map[int]bool{}, ufs: map[string]bool{}}
+	p.buf.WriteString("(set-option :produce-models true)\n(set-logic ALL)\n")
+	for _, a := range lits {
+		p.emit(a)
+	}
+	p.buf.WriteString("(check-sat-assuming (")
+	for _, a := range lits {
+		p.buf.WriteString(term.Ref(a) + " ")
+	}
+	fmt.Fprintf(&p.buf, "))\n; first solver: %s, second solver: %s\n", want, got)
+	s.Stats.Errors++
+	os.WriteFile(fmt.Sprintf("%s/disagree-%d.smt2", dir, s.Stats.Queries), []byte(p.buf.String()), 0o644)
 }
